@@ -1,6 +1,7 @@
 import MpdProofs.Lemmas.Skeleton
 import MpdProofs.Lemmas.LoopInv
 import Mpd.Client
+import MpdProofs.Lemmas.StreamRun
 /-!
 # C01 — every request is answered with its own reply, in issue order
 
@@ -15,11 +16,17 @@ Three layers (see the header of `Lemmas/Skeleton.lean` for the closed system):
    loses, duplicates or invents a request: (answered ++ in flight ++ queued) is preserved as a
    multiset — so a request is answered at most once and cancelling one caller (which only drops its
    receiver) cannot disturb another's reply.
+   **byte-level task model, all runs** (`C01_replies_from_stream`): along every run after the
+   greeting (any deliveries, any scheduler choices, requests arriving and futures being dropped at any
+   time) up to the first broken poll, the replies handed to callers are, in order, responses of the
+   delivered byte stream, each stream response is consumed exactly once and attributed to the
+   request in flight, to the event stream (idle reply) or to the password verdict.
 3. **caller side** (`C01_partial_list`): `raw_command_list` returns the server's error together
    with exactly the frames that preceded it.
 
-PARTIAL: the refinement from the byte-level model (2) to the skeleton (1) is validated per trace by
-the correspondence run (the oracle replays the implementation's writes through `Spec.Server`), not
+PARTIAL: the remaining gap between the byte-level model (2) and the skeleton (1) — that the
+server's i-th reply block answers the i-th request block written, i.e. the server side of the wire —
+is validated per trace by the correspondence run (the oracle replays the implementation's writes through `Spec.Server`), not
 proved; tokio's scheduler fairness and write back-pressure are outside the model.
 -/
 namespace Mpd.C01
@@ -41,6 +48,16 @@ theorem C01_one_in_flight (as : List Skeleton.Act) : (as.foldl Skeleton.step {})
 theorem C01_accounting (s s' : Loop.St) (rf : Bool) (h : Loop.step s rf = some s') :
     ∀ id, (Loop.accounted s').count id = (Loop.accounted s).count id :=
   Loop.step_accounted s s' rf h
+
+/-- **replies come from the stream**, all runs of the byte-level task model: see `Loop.Good` -/
+theorem C01_replies_from_stream (s0 s : Loop.St) (D : Bytes) (h0 : Loop.AfterGreeting s0) (hr : Loop.Run s0 s D) :
+    ∃ rs, (∀ q, Loop.Decodes .initial (D ++ q) rs (Loop.future s q)) ∧
+      Loop.Attr rs (Loop.responses s.obs) (Loop.eventsOf s.obs) :=
+  (Loop.run_decodes s0 s D h0 hr).2
+
+/-- one step: the reply resolved for the request in flight is exactly the next response of the stream -/
+theorem C01_step_effect (s s' : Loop.St) (rf : Bool) (hc : s.pc ≠ .connecting) (h : Loop.step s rf = some s') :
+    Loop.Effect s s' := Loop.step_effect s s' rf hc h
 
 /-- **partial list failure**: the caller gets the server's error and exactly the frames of the
 commands that succeeded before it, in order -/
